@@ -62,7 +62,10 @@ type persistObs struct {
 	Done     int          `json:"done,omitempty"`
 	Killed   bool         `json:"killed,omitempty"`
 	Readback []persistOut `json:"readback,omitempty"`
-	Raw      [][]int      `json:"raw"` // ids present per bucket afterwards (null = no such bucket), read with bbolt directly
+	Worker   string       `json:"worker,omitempty"` // exit status of the worker process
+	Reader   string       `json:"reader,omitempty"` // exit status of the reading process
+	Bad      bool         `json:"bad,omitempty"`    // a sub-process failed / timed out or a read-back load returned an error
+	Raw      [][]int      `json:"raw"`              // ids present per bucket afterwards (null = no such bucket), read with bbolt directly
 }
 
 // bytes written behind the wrapper's back, with what encoding/json makes of them per kind
@@ -262,7 +265,7 @@ func (e *persistEnv) exec1(o persistOp) persistOut {
 // persistRaw reads the key sets of the two buckets directly (read-only transaction).
 func persistRaw(path string) ([][]int, string) {
 	raw := make([][]int, 2)
-	db, err := bolt.Open(path, 0600, &bolt.Options{Timeout: time.Minute, ReadOnly: true})
+	db, err := bolt.Open(path, 0600, &bolt.Options{Timeout: 5 * time.Second, ReadOnly: true})
 	if err == nil {
 		_ = db.View(func(tx *bolt.Tx) error {
 			for k := 0; k < 2; k++ {
@@ -577,33 +580,48 @@ func persistRunSeq(ctx *Ctx, in persistIn) (persistObs, string) {
 }
 
 // ---- kill cases ----
-func persistRunSub(dir string, mode string, kill time.Duration, extra ...string) (killed bool, elapsed time.Duration) {
+// persistRunSub runs one worker/reader process under its own watchdog.
+// kill >= 0: SIGKILL it after that delay (timed kill). status: "ok" (exit 0), "killed" (by the timed kill),
+// "self-killed" (died by a signal: its crash point), "timeout" (watchdog), or "failed: <error>".
+func persistRunSub(dir string, mode string, kill time.Duration, watchdog time.Duration, extra ...string) (status string, elapsed time.Duration) {
 	cmd := exec.Command(os.Args[0], append([]string{mode, "--work", dir, "--out", os.DevNull, "dir=" + dir}, extra...)...)
 	t0 := time.Now()
 	if err := cmd.Start(); err != nil {
-		panic(err)
+		return "failed: " + err.Error(), 0
 	}
+	var werr error
+	done := make(chan struct{})
+	go func() { werr = cmd.Wait(); close(done) }()
+	var killC <-chan time.Time
 	if kill >= 0 {
-		done := make(chan struct{})
-		go func() { _ = cmd.Wait(); close(done) }()
-		select {
-		case <-done:
-			return false, time.Since(t0)
-		case <-time.After(kill):
-			_ = cmd.Process.Kill() // SIGKILL
-			<-done
-			return true, time.Since(t0)
-		}
+		killC = time.After(kill)
 	}
-	if err := cmd.Wait(); err != nil {
+	select {
+	case <-done:
+	case <-killC:
+		_ = cmd.Process.Kill() // SIGKILL
+		<-done
+		return "killed", time.Since(t0)
+	case <-time.After(watchdog):
+		_ = cmd.Process.Kill()
+		<-done
+		return "timeout", time.Since(t0)
+	}
+	if werr != nil {
 		var ee *exec.ExitError
-		if errors.As(err, &ee) && !ee.Exited() && len(extra) > 0 {
-			return true, time.Since(t0) // the worker killed itself at its crash point
+		if errors.As(werr, &ee) && !ee.Exited() {
+			return "self-killed", time.Since(t0)
 		}
-		panic(mode + ": " + err.Error())
+		return "failed: " + werr.Error(), time.Since(t0)
 	}
-	return false, time.Since(t0)
+	return "ok", time.Since(t0)
 }
+
+const (
+	persistWorkerWatchdog = 20 * time.Second
+	persistReaderWatchdog = 10 * time.Second
+	persistSlowOp         = 2 * time.Second // the reader stops after an operation slower than this
+)
 
 type persistKillCal struct{ start, full time.Duration }
 
@@ -621,14 +639,16 @@ func persistRunKill(ctx *Ctx, in persistIn, cal *persistKillCal) (persistObs, st
 	lo := cal.start * 8 / 10
 	span := cal.full - lo
 	delay := lo + time.Duration(int64(span)*int64(in.Frac)/1250) // sequences vary in length: aim at the first 80% of the calibrated run
-	var killed bool
+	var wstatus string
 	if in.Mode == "killat" {
-		killed, _ = persistRunSub(dir, "persist-worker", -1, "killat="+itoa(in.KillAt))
+		wstatus, _ = persistRunSub(dir, "persist-worker", -1, persistWorkerWatchdog, "killat="+itoa(in.KillAt))
 	} else {
-		killed, _ = persistRunSub(dir, "persist-worker", delay)
+		wstatus, _ = persistRunSub(dir, "persist-worker", delay, persistWorkerWatchdog)
 	}
+	killed := wstatus == "killed" || wstatus == "self-killed"
 	var obs persistObs
 	obs.Killed = killed
+	obs.Worker = wstatus
 	if jb, err := os.ReadFile(filepath.Join(dir, "journal")); err == nil {
 		for _, line := range strings.Split(string(jb), "\n") {
 			switch line {
@@ -640,15 +660,25 @@ func persistRunKill(ctx *Ctx, in persistIn, cal *persistKillCal) (persistObs, st
 		}
 	}
 	// a fresh process reads everything back
-	persistRunSub(dir, "persist-reader", -1)
-	rb, err := os.ReadFile(filepath.Join(dir, "readback.json"))
-	if err != nil {
-		panic(err)
-	}
-	if err := json.Unmarshal(rb, &obs.Readback); err != nil {
-		panic(err)
+	rstatus, _ := persistRunSub(dir, "persist-reader", -1, persistReaderWatchdog)
+	obs.Reader = rstatus
+	if rb, err := os.ReadFile(filepath.Join(dir, "readback.json")); err == nil {
+		_ = json.Unmarshal(rb, &obs.Readback)
 	}
 	loads := persistLoadAllOps()
+	if rstatus != "ok" && len(obs.Readback) < len(loads) {
+		// the reader died or was stopped by its watchdog: the load it was in did not deliver a result
+		obs.Readback = append(obs.Readback, persistOut{R: "error", Err: "reader " + rstatus})
+	}
+	loads = loads[:len(obs.Readback)] // only what was observed
+	for _, o := range obs.Readback {
+		if o.R == "error" {
+			obs.Bad = true
+		}
+	}
+	if wstatus == "timeout" || strings.HasPrefix(wstatus, "failed") {
+		obs.Bad = true
+	}
 	inflight := "None"
 	tags := []string{"kill"}
 	if in.Mode == "killat" {
@@ -679,7 +709,8 @@ func persistRunKill(ctx *Ctx, in persistIn, cal *persistKillCal) (persistObs, st
 			tags = append(tags, "kill-between")
 		}
 	default:
-		panic("journal inconsistent")
+		obs.Bad = true
+		tags = append(tags, "kill-journal-inconsistent")
 	}
 	if in.Disk {
 		tags = append(tags, "kill-disk")
@@ -735,11 +766,20 @@ func persistReader(ctx *Ctx) {
 	env := persistNewEnv(filepath.Join(dir, "fan2go.db"))
 	var outs []persistOut
 	for _, o := range persistLoadAllOps() {
+		t0 := time.Now()
 		outs = append(outs, env.exec(o))
-	}
-	b, _ := json.Marshal(outs)
-	if err := os.WriteFile(filepath.Join(dir, "readback.json"), b, 0600); err != nil {
-		panic(err)
+		// the result of every load is on disk before the next one starts (the parent may have to kill us)
+		b, _ := json.Marshal(outs)
+		tmp := filepath.Join(dir, "readback.tmp")
+		if err := os.WriteFile(tmp, b, 0600); err != nil {
+			panic(err)
+		}
+		if err := os.Rename(tmp, filepath.Join(dir, "readback.json")); err != nil {
+			panic(err)
+		}
+		if time.Since(t0) > persistSlowOp {
+			return // something is badly wrong already; what was observed so far is the observation
+		}
 	}
 }
 
@@ -836,7 +876,7 @@ func init() {
 				best := time.Hour
 				for i := 0; i < 3; i++ {
 					_ = os.Remove(filepath.Join(dir, "fan2go.db"))
-					_, el := persistRunSub(dir, "persist-worker", -1)
+					_, el := persistRunSub(dir, "persist-worker", -1, persistWorkerWatchdog)
 					if el < best {
 						best = el
 					}
@@ -852,11 +892,17 @@ func init() {
 		}
 		var calDisk *persistKillCal
 		lastKilled := false
+		killBad := 0 // kill-family cases with a failed sub-process or a failing read-back load; the family stops after 3
+		const killBadMax = 3
 		emit := func(in persistIn, tags ...string) {
 			switch in.Mode {
 			case "killat":
 				obs, coq, t := persistRunKill(ctx, in, nil)
 				lastKilled = obs.Killed
+				if obs.Bad {
+					killBad++
+					t = append(t, "kill-bad")
+				}
 				ctx.Emit(Record{In: in, Obs: obs, Coq: coq, Tags: append(tags, t...), NonTrv: obs.Killed && obs.Done >= 2,
 					Key: coq + "/" + itoa(obs.Done)})
 			case "kill":
@@ -868,6 +914,10 @@ func init() {
 					*c = calibrate(in.Disk)
 				}
 				obs, coq, t := persistRunKill(ctx, in, *c)
+				if obs.Bad {
+					killBad++
+					t = append(t, "kill-bad")
+				}
 				nt := obs.Killed && obs.Done >= 2
 				ctx.Emit(Record{In: in, Obs: obs, Coq: coq, Tags: append(tags, t...), NonTrv: nt,
 					Key: coq + "/" + itoa(obs.Done)})
@@ -942,6 +992,9 @@ func init() {
 		for si := 0; si < ctx.Param("killatseqs", 2); si++ {
 			ops := persistGenKillAtOps(arng, si)
 			for k := 1; k <= 4*len(ops)+4; k++ {
+				if killBad >= killBadMax {
+					break
+				}
 				emit(persistIn{Mode: "killat", Ops: ops, KillAt: k}, "killat-seq"+itoa(si))
 				if !lastKilled {
 					break // the worker ran to completion: no k-th transaction
@@ -951,6 +1004,9 @@ func init() {
 		kills := ctx.Param("kills", 30)
 		krng := NewRng(ctx.Seed, "persist-kill")
 		for i := 0; i < kills; i++ {
+			if killBad >= killBadMax {
+				break // every further case would cost its watchdog time again; three failing inputs are recorded
+			}
 			disk := ctx.Param("diskkills", 0) > 0 && i%2 == 1
 			emit(persistIn{Mode: "kill", Ops: persistGenKillOps(krng, ctx.Param("killops", 40)), Frac: krng.Intn(1000), Disk: disk})
 		}
